@@ -385,6 +385,19 @@ def clause8_accepted_fd(ctx, P, cg):
     for checker in ("check_websocket_version", "save_websocket_key"):
         badv = None
         nf = 0
+        if checker == "save_websocket_key" and not P.by_src.get(checker):
+            # the key check folded into the callback by hand: a key of another length than 24 must make the callback fail
+            KEY = Q.enum(P, "HEADER_SEC_WEBSOCKET_KEY")
+            for v in Q.path_views(ctx, P, hvf):
+                in_case = v.has_atom(lambda a, p: a[0] == "switch" and a[2] == KEY)
+                wrong = v.has_atom(lambda a, p: a[0] == "cmp" and a[2][0] == "param" and a[2][1] == 2 and a[3] == ("const", 24) and not Q._poleq(a, p))
+                if in_case and wrong:
+                    nf += 1
+                    if v.ret_const() is None or v.ret_const() == 0:
+                        badv = v
+            ctx.ob("C13.3 R-RET", hvf, "failed-header-check-fails-the-request:" + checker, badv is None and nf > 0,
+                   "a Sec-WebSocket-Key of the wrong length does not make the header callback fail", witness=badv.witness() if badv else None)
+            continue
         for v in Q.path_views(ctx, P, hvf):
             failed = v.has_atom(lambda a, p: a[0] == "cmp" and Q.is_call_to(a[2], checker) and a[3] == ("const", 0) and
                                 ((a[1] == "eq" and not p) or (a[1] == "ne" and p) or (a[1] == "slt" and p)))
